@@ -701,7 +701,9 @@ func c16Check(c *vcore.Ctx) {
 			return
 		}
 		if cs.Part == "conc" {
-			c16ConcOne(c, &cs, cs.Choices, true)
+			if _, _, valid := c16ConcOne(c, &cs, cs.Choices, true); !valid {
+				c.HarnessError("replay: schedule %v asks for a choice that does not exist", cs.Choices)
+			}
 			return
 		}
 		m := c16Root()
